@@ -249,14 +249,14 @@ def phase1(task, col):
         if b.dsg is None:
             continue
         model = R.Model(sp)
-        rec = {}
+        rec = {'__spec__': S.digest(sp)}
         for enc in ('COMPLETE', 'FAST'):
             try:
                 gp = GraphProcessor(b.dsg, encoder_type=getattr(SelChoiceEncoderType, enc))
                 rec[enc] = tables(sp, b, gp, model)
                 if enc == 'COMPLETE':
                     with open(os.path.join(task['dir'], '%s_%d.pkl' % (task['hs'], i)), 'wb') as fp:
-                        pickle.dump({'dsg': b.dsg, 'gp': gp}, fp)
+                        pickle.dump({'dsg': b.dsg, 'gp': gp, 'spec': S.digest(sp)}, fp)
             except Exception as e:  # noqa
                 rec[enc] = 'EXC:' + type(e).__name__
         out[str(i)] = rec
@@ -278,6 +278,9 @@ def phase2(task, col):
         try:
             with open(path, 'rb') as fp:
                 d = pickle.load(fp)
+            if d.get('spec') != S.digest(sp):   # harness self-check: the generator must not depend on the hash seed
+                col.inconclusive.append({'reason': 'generated spec differs between processes', 'case': i})
+                continue
             b = B.build(sp)
             if not d['dsg'].is_same(b.dsg):
                 col.violation('unpickled_graph_not_recognised_in_other_process', sp,
@@ -369,6 +372,9 @@ def main(run):
             continue
         n_cmp += 1
         ref_hs = sorted(by_hs)[0]
+        if len({rec.get('__spec__') for rec in by_hs.values()}) > 1:
+            run.results.append({'inconclusive': [{'reason': 'generated spec differs between processes', 'case': i}]})
+            continue
         for hs, rec in by_hs.items():
             if S.canon(rec) != S.canon(by_hs[ref_hs]):
                 name, sp = case_spec(run.seed, int(i))
